@@ -105,6 +105,18 @@ def check_doc(ck, case, rnd, tmp, do_sax=True):
                         bad('Document.paths_from_group', 'raises-' + type(e).__name__, 'group %s recursive=%s raised %r' % (names, recursive, e))
                         continue
                     compare_all('Document.paths_from_group', {p.element.get('id'): p for p in ps}, lambda k: case['flat'][k - 1], under)
+        # a history on the same Document: query (above), edit a transform attribute through the ElementTree API the class hands out, query again
+        kx = rnd.choice(shapes)
+        el = next(e_ for e_ in doc.tree.getroot().iter() if e_.get('id') == 'n%d' % kx)
+        el.set('transform', ((el.get('transform') or '') + ' translate(7,-3)').strip())
+        def edited(q):
+            M = case['flat'][q - 1]
+            return M if q != kx else [M[0], M[1], M[2], M[3], M[0] * 7 - M[2] * 3 + M[4], M[1] * 7 - M[3] * 3 + M[5]]
+        compare_all('Document.paths', {p_.element.get('id'): p_ for p_ in doc.paths()}, edited, shapes)
+        par = nodes[kx - 1]['parent']
+        if par and par != 1:
+            ps = doc.paths_from_group(['n%d' % j for j in chain(par)[1:]], recursive=False)
+            compare_all('Document.paths_from_group', {p_.element.get('id'): p_ for p_ in ps}, edited, [q for q in shapes if nodes[q - 1]['parent'] == par])
     except Exception as e:      # noqa
         import traceback
         kd = sorted(set(nodes[k - 1]['kind'] for k in shapes))
